@@ -278,3 +278,262 @@ func c01Units(w *World, r *Report) {
 	r.Count("unit-checked operations", nOps)
 	r.OK("R01.8", "package xpath: unit discipline", token.NoPos, fmt.Sprintf("%d operations in %d functions carry a unit; none mixes bytes and characters", nOps, nFuncs))
 }
+
+// c01NodesetGuards (R01.2): compareNodesetsAndPush reaches the comparator
+// exactly when neither operand is an empty node-set, every other exit has
+// pushed false, and the left/right operand sets are not exchanged.  Stated on
+// the path condition of the comparator call, so it holds for any arrangement
+// of the tests (nested ifs, helper returning an "empty" flag, guard clauses).
+func c01NodesetGuards(w *World, r *Report) {
+	f := w.SSAFunc(w.Method("xpath", "context", "compareNodesetsAndPush"))
+	capn := w.Method("xpath", "context", "compareAndPushNodesets")
+	push := w.Method("xpath", "context", "pushDatum")
+	newBool := w.Func("xpath", "NewBoolDatum")
+	if f == nil {
+		panic(undecided{"context.compareNodesetsAndPush"})
+	}
+	np := len(f.Params)
+	l, rt := np-2, np-1 // op1, op2
+	var call *ssa.Call
+	var falsePush []*ssa.BasicBlock
+	otherPush := token.NoPos
+	for _, b := range f.Blocks {
+		for _, in := range b.Instrs {
+			c, ok := in.(*ssa.Call)
+			if !ok || c.Call.StaticCallee() == nil {
+				continue
+			}
+			switch c.Call.StaticCallee().Object() {
+			case capn:
+				if call != nil {
+					panic(undecided{"compareNodesetsAndPush: two comparator calls"})
+				}
+				call = c
+			case push:
+				isFalse := false
+				if nb, ok := stripIface(c.Call.Args[1]).(*ssa.Call); ok && nb.Call.StaticCallee() != nil && nb.Call.StaticCallee().Object() == newBool {
+					if k, ok := nb.Call.Args[0].(*ssa.Const); ok && k.Value != nil && k.Value.ExactString() == "false" {
+						isFalse = true
+					}
+				}
+				if isFalse {
+					falsePush = append(falsePush, b)
+				} else {
+					otherPush = c.Pos()
+				}
+			}
+		}
+	}
+	if call == nil {
+		panic(undecided{"compareNodesetsAndPush: comparator call not found"})
+	}
+	sym := NewSym(w)
+	cond := sym.PathCond(f.Blocks[0], call.Block(), nil)
+	classify := func(a *pcAtom) string {
+		for i, p := range []int{l, rt} {
+			if a.key == fmt.Sprintf("p%d.(xpath.nodesetDatum)#1", p) {
+				return fmt.Sprintf("ns%d", i+1)
+			}
+			if a.subj == fmt.Sprintf("len(p%d.(xpath.nodesetDatum).nodes)", p) && a.set.equal(isetOf(0)) {
+				return fmt.Sprintf("empty%d", i+1)
+			}
+		}
+		return ""
+	}
+	msg := pcCompare(cond, classify, func(env map[string]bool) bool {
+		return !(env["ns1"] && env["empty1"]) && !(env["ns2"] && env["empty2"])
+	})
+	// every exit that does not come from the comparator has pushed false
+	if msg == "" {
+		for _, b := range f.Blocks {
+			if _, ok := b.Instrs[len(b.Instrs)-1].(*ssa.Return); !ok {
+				continue
+			}
+			if call.Block().Dominates(b) {
+				continue
+			}
+			ok := false
+			for _, fb := range falsePush {
+				if fb.Dominates(b) {
+					ok = true
+				}
+			}
+			if !ok {
+				msg = "an exit that bypasses the comparator pushes no false (" + w.PosStr(b.Instrs[len(b.Instrs)-1].Pos()) + ")"
+			}
+		}
+		if otherPush.IsValid() {
+			msg = "something other than false is pushed at " + w.PosStr(otherPush)
+		}
+	}
+	r.Check(msg == "", "R01.2", "compareNodesetsAndPush empty-set rule", f.Pos(), "comparator reached iff neither operand is an empty node-set; otherwise false is pushed", "an empty node-set operand does not (or not only it does) short-circuit the comparison to false — an absent node must be false in every comparison, even != : "+msg)
+
+	// operand order: the comparator's first set is computed from the left operand only
+	a0, a1 := rootParams(call.Call.Args[1], f), rootParams(call.Call.Args[2], f)
+	okOrder := a0[l] && !a0[rt] && a1[rt] && !a1[l]
+	r.Check(okOrder, "R01.2", "compareNodesetsAndPush operand order", call.Pos(), "(set of left, set of right)", "left and right operand sets are exchanged (or mixed) on the way to the comparator")
+}
+
+// c01ConversionsSSA (R01.3, conversions of the datum types): each conversion
+// is read as a decision table — exits, their path conditions and the value
+// returned there — and the table is evaluated for the classes of input the
+// XPath definition distinguishes.  if/switch/guard-clause forms of one table
+// are the same table.
+func c01ConversionsSSA(w *World, r *Report) {
+	sym := NewSym(w)
+	method := func(t, m string) *ssa.Function {
+		f := w.SSAFunc(w.Method("xpath", t, m))
+		if f == nil || f.Blocks == nil {
+			panic(undecided{"xpath." + t + "." + m})
+		}
+		if len(ssaLoops(f)) > 0 {
+			panic(undecided{"xpath." + t + "." + m + " has a loop"})
+		}
+		return f
+	}
+	fieldOfRecv := func(f *ssa.Function, name string) func(ssa.Value) bool {
+		return func(v ssa.Value) bool {
+			switch x := v.(type) {
+			case *ssa.Field:
+				st := x.X.Type().Underlying().(*types.Struct)
+				return x.X == ssa.Value(f.Params[0]) && st.Field(x.Field).Name() == name
+			case *ssa.UnOp:
+				if fa, ok := x.X.(*ssa.FieldAddr); ok && x.Op == token.MUL {
+					st := fa.X.Type().Underlying().(*types.Pointer).Elem().Underlying().(*types.Struct)
+					if st.Field(fa.Field).Name() != name {
+						return false
+					}
+					// value receivers are spilled: &local{param}.field
+					if a, ok := fa.X.(*ssa.Alloc); ok {
+						return singleStore(a) == ssa.Value(f.Params[0])
+					}
+					return fa.X == ssa.Value(f.Params[0])
+				}
+			}
+			return false
+		}
+	}
+	// numDatum.Boolean over (negative, zero, positive, NaN)
+	{
+		f := method("numDatum", "Boolean")
+		isNum := fieldOfRecv(f, "num")
+		fc := sym.ResultCond(f, nil)
+		var res []string
+		good := true
+		for i, c := range []floatClass{fNeg, fZero, fPos, fNaN} {
+			v, ok, und := pcEvalUnder(fc, func(a *pcAtom) (bool, bool) { return floatAtom(a, isNum, c) })
+			if !ok {
+				res = append(res, "undecided("+und+")")
+				good = false
+				continue
+			}
+			res = append(res, fmt.Sprint(v))
+			if v != []bool{true, false, true, false}[i] {
+				good = false
+			}
+		}
+		r.Check(good, "R01.3", "numDatum.Boolean", f.Pos(), "false exactly for ±0 and NaN",
+			fmt.Sprintf("boolean(number) over (negative, zero, positive, NaN) = %v; XPath §4.3: false iff zero or NaN → [true false true false]", res))
+	}
+	// litDatum.Boolean = length non-zero
+	{
+		f := method("litDatum", "Boolean")
+		fc := sym.ResultCond(f, nil)
+		isLit := fieldOfRecv(f, "lit")
+		msg := pcCompare(fc, func(a *pcAtom) string {
+			if a.subj != "" && a.set.equal(isetOf(0)) {
+				if c, ok := a.v.(*ssa.BinOp); ok {
+					for _, side := range []ssa.Value{c.X, c.Y} {
+						if arg, ok := isLenCall(side); ok && isLit(arg) || isLit(side) {
+							return "empty"
+						}
+					}
+				}
+			}
+			return ""
+		}, func(env map[string]bool) bool { return !env["empty"] })
+		r.Check(msg == "", "R01.3", "litDatum.Boolean", f.Pos(), "len(lit) > 0", "boolean(string) is not 'length non-zero': "+msg)
+	}
+	// boolDatum.Number / Literal
+	for _, c := range []struct {
+		meth, t, f, descr string
+	}{
+		{"Number", "1", "0", "true→1, false→0"},
+		{"Literal", `"true"`, `"false"`, "true→\"true\", false→\"false\""},
+	} {
+		f := method("boolDatum", c.meth)
+		isB := fieldOfRecv(f, "boolVal")
+		why := ""
+		for _, bv := range []bool{true, false} {
+			var got []string
+			for _, row := range sym.retTable(f, 0) {
+				v, ok, und := pcEvalUnder(row.cond, func(a *pcAtom) (bool, bool) {
+					if a.v != nil && isB(a.v) {
+						return bv, true
+					}
+					return false, false
+				})
+				if !ok {
+					why = "depends on " + und
+					continue
+				}
+				if v {
+					k, isC := row.val.(*ssa.Const)
+					if !isC {
+						got = append(got, "non-constant")
+					} else if k.Value == nil {
+						got = append(got, "0")
+					} else if k.Value.Kind() == constant.String {
+						got = append(got, k.Value.ExactString())
+					} else {
+						fv, _ := constant.Float64Val(constant.ToFloat(k.Value))
+						got = append(got, fmt.Sprint(fv))
+					}
+				}
+			}
+			want := c.f
+			if bv {
+				want = c.t
+			}
+			if len(got) != 1 || got[0] != want {
+				why += fmt.Sprintf("%v gives %v; ", bv, got)
+			}
+		}
+		r.Check(why == "", "R01.3", "boolDatum."+c.meth, f.Pos(), c.descr, "conversion of a boolean is not "+c.descr+": "+why)
+	}
+	// numDatum.Literal special cases
+	{
+		f := method("numDatum", "Literal")
+		isNum := fieldOfRecv(f, "num")
+		got := map[string]string{}
+		why := ""
+		names := map[floatClass]string{fZero: "zero", fPosInf: "+inf", fNegInf: "-inf", fPos: "finite"}
+		for _, c := range []floatClass{fZero, fPosInf, fNegInf, fPos} {
+			n := 0
+			for _, row := range sym.retTable(f, 0) {
+				v, ok, und := pcEvalUnder(row.cond, func(a *pcAtom) (bool, bool) {
+					// a finite positive number is not an infinity
+					return floatAtom(a, isNum, c)
+				})
+				if !ok {
+					why = "depends on " + und
+					continue
+				}
+				if !v {
+					continue
+				}
+				n++
+				if k, isC := row.val.(*ssa.Const); isC && k.Value != nil && k.Value.Kind() == constant.String {
+					got[names[c]] = constant.StringVal(k.Value)
+				} else {
+					got[names[c]] = "<computed>"
+				}
+			}
+			if n != 1 {
+				why += fmt.Sprintf("%d exits for %s; ", n, names[c])
+			}
+		}
+		ok := why == "" && got["zero"] == "0" && got["+inf"] == "Infinity" && got["-inf"] == "-Infinity" && got["finite"] == "<computed>"
+		r.Check(ok, "R01.3", "numDatum.Literal special cases", f.Pos(), "±0→\"0\", +∞→\"Infinity\", −∞→\"-Infinity\"", fmt.Sprintf("string(number) special cases are %v %s", got, why))
+	}
+}
